@@ -71,7 +71,7 @@ Downstream(c) ==
 \* on success the msg id of the pack's last end position is returned
 Outcome(c) ==
     [down |-> <<Downstream(c)>>,
-     ret  |-> [err |-> c.fail, ckpt |-> IF c.fail THEN "nil" ELSE "lastend"]]
+     ret  |-> [err |-> c.fail, ckpt |-> IF c.fail THEN "nil" ELSE "lastend", early |-> FALSE]]
 
 Call(ch, pack, fail) == [ch |-> ch, pack |-> pack, fail |-> fail]
 
@@ -139,6 +139,7 @@ DownOK(cf, c, d) ==
 
 CallOK(cf, c, o) ==
     /\ \A j \in 1..Len(o.down) : DownOK(cf, c, o.down[j])  \* every downstream call of this pack
+    /\ ~o.ret.early                                        \* the call returns its OWN downstream outcome: not before that call completed
     /\ (c.fail => o.ret.err)                               \* a downstream error is returned, not swallowed
     /\ (~c.fail => /\ ~o.ret.err /\ Len(o.down) >= 1
                    /\ o.ret.ckpt = "lastend")              \* checkpoint = msg id of the pack's last end position
